@@ -205,6 +205,33 @@ theorem c30_206_first_satisfiable (f : File) (r : Req) (a b s : Int)
           rw [hl, lOf_badEnd ok] at h2
           by_cases h0 : i ≥ (f.content.length : Int) <;> simp [h0] at h2
 
+/-- **From header text to bytes (single closed range).** `GET` with only `Range: bytes=a-b` (decimal, `a ≤ b`,
+`a` inside the file): 206, `Content-Range: bytes a-e/size` with `e = min b (size-1)`, Content-Length `e-a+1`,
+and the body is exactly the bytes `a..e` of the file. -/
+theorem c30_single_range (f : File) (a b : Nat) (k : Bool) (hab : a ≤ b) (hb : b < 2 ^ 63)
+    (ha : a < f.content.length) :
+    (serve f (rangeOnly a b k)).status = 206 ∧
+    (serve f (rangeOnly a b k)).contentRange = .range a (min (b : Int) (f.content.length - 1)) f.content.length ∧
+    (serve f (rangeOnly a b k)).contentLength = some (min (b : Int) (f.content.length - 1) - a + 1) ∧
+    (serve f (rangeOnly a b k)).body = slice f.content a (min (b : Int) (f.content.length - 1)) := by
+  obtain ⟨hplan, hwl⟩ := plan_closedRange f a b k hab hb ha
+  have he : early304 f (rangeOnly a b k) = false := by simp [early304, rangeOnly]
+  rcases serve_cases f (rangeOnly a b k) with ⟨he', _⟩ | ⟨_, _, hw, _⟩ | ⟨_, _, hpl⟩
+  · rw [he] at he'; simp at he'
+  · simp only [rangeOnly] at hw; rw [hwl] at hw; simp at hw
+  · rcases hpl with ⟨resp, hp, _⟩ | ⟨st, cr, start, n, hp, hst, hcr, hcl⟩
+    · rw [hplan] at hp; simp at hp
+    · rw [hplan] at hp
+      simp only [Plan.send.injEq] at hp
+      obtain ⟨rfl, rfl, rfl, rfl⟩ := hp
+      refine ⟨hst, hcr, hcl, ?_⟩
+      obtain ⟨a', b', hcr', _, _, _, _, hbody⟩ := (c30_consistent f (rangeOnly a b k)).2.1 hst
+      rw [hcr] at hcr'
+      simp only [CRange.range.injEq] at hcr'
+      obtain ⟨rfl, rfl, _⟩ := hcr'
+      exact (hbody rfl).1
+
+
 /-- **416 only when no requested range overlaps the file.** A 416 answer means: a Range header was
 present and honoured, the file is not empty, every non-empty piece of it is a range-spec whose
 first-byte-pos is at or beyond the end of the file and there is at least one such piece (then the
@@ -366,6 +393,8 @@ theorem c30_unfixed_counterexample_d :
       (serveWith false f0 reqD).body = f0.content.drop 5 := by decide +kernel
 
 /-! the same requests against the repaired code -/
+/-- `c30_single_range` is not vacuous: `bytes=2-5` on the 12-byte file -/
+example : (serve f0 (rangeOnly 2 5 true)).body = [50, 51, 52, 53] := by decide +kernel
 example : (serve f0 reqA).status = 200 ∧ (serve f0 reqA).body = f0.content := by decide +kernel
 example : (serve f0 reqB).status = 206 ∧ (serve f0 reqB).contentRange = .range 0 3 12 ∧
     (serve f0 reqB).body = [48, 49, 50, 51] := by decide +kernel
